@@ -53,7 +53,7 @@ def posit_streams(ops, quick_exh8, quick_rnd, thorough_rnd):
 
 
 # ---------------------------------------------------------------------------------------------- family cfloat
-CF_SMALL = [(4, 1), (5, 2), (6, 1), (6, 2), (6, 3), (7, 4), (8, 2), (8, 3), (8, 4), (8, 5)]
+CF_SMALL = [(4, 1), (4, 2), (5, 2), (5, 3), (6, 1), (6, 2), (6, 3), (7, 4), (8, 2), (8, 3), (8, 4), (8, 5)]
 CF_BT = ["u8", "u16", "u32"]
 # (nbits, es, bt, flags) instantiated in the large-configuration TU: half, bfloat_t, single, duble, cfloat<24,5>, <40,8>, …
 CF_LARGE = [(16, 5, "u16", "100"), (16, 8, "u16", "100"), (32, 8, "u32", "100"), (64, 11, "u32", "100"),
@@ -129,9 +129,11 @@ PROPS = {
         level="proof",
         level_text="Lean theorems about the executable model of cfloat operator+= -= *= /= (special-value prologues, normalize*, "
                    "blocktriple add/mul/div, convert incl. its non-rounding >64-bit branch) and the IEEE-style rounding relation "
-                   "IeeeNearest (RNE on the configuration's lattice, flush/subnormal, inf/saturate); the special-value table and the "
-                   "rounding step of convert are proved for all configurations, the remaining full statements are stated as Prop "
-                   "definitions; the compiled headers are tied to the model by exhaustive (<=8 bit, all flag combinations, three block "
+                   "IeeeNearest (RNE on the configuration's lattice, flush/subnormal, inf/saturate); the special-value table is proved "
+                   "for all configurations; C02_arith_partial proves the model's + - * / correct for ALL operand pairs (subnormal operands, "
+                   "every result range, both convert branches, es = 1) under one decidable input condition, arithClass = \"\", which is the "
+                   "function the driver classifies lines with: the gap to the full statements (kept as Prop definitions, refuted by "
+                   "counterexample theorems) is exactly the recorded classes D4, D5 and sat+sup maxpos (other hypotheses: validity, es<=20 -- a static_assert of the class --, block type of >= 1 bit, canonical encodings); the compiled headers are tied to the model by exhaustive (<=8 bit, all flag combinations, three block "
                    "types) and structured transcripts, every output judged by the executable relation and, for single/duble, by hardware",
         level_note="trusted: Lean kernel, hand-written model (tied by correspondence only on explored inputs), table translator, g++ 12.2, "
                    "hardware float/double; known defects D4/D5 and the saturating+supernormal maxpos encoding are reported as KNOWN-FINDING "
